@@ -97,15 +97,28 @@ async fn run_conc_inner<TC: HasRef>(b: &Value, tr: &mut Tracer) -> Vec<Value> {
         c.proto.clear();
         c.proto_enabled = true;
     }
+    let debug_log = b["debug_log"].as_bool().unwrap_or(false);
+    if debug_log {
+        ctx.db.set_log(true);
+    }
     let procs = b["procs"].as_array().unwrap().clone();
     let mut handles: HashMap<u32, tokio::task::JoinHandle<Value>> = HashMap::new();
+    // "shared_remote": all remote tasks are served by ONE second instance (one cache; needed for its change poller)
+    let shared_remote = b["shared_remote"].as_bool().unwrap_or(false);
+    let mut rdir = None;
     for p in procs.iter() {
         let pid = p["pid"].as_u64().unwrap() as u32;
         // a reader marked "remote" is served by a second instance: its own cached manager over the same
         // database (cold cache except for the epoch record it read when it was opened)
         let dir = if p["remote"].as_bool().unwrap_or(false) {
-            let m = akd::storage::manager::StorageManager::new(ctx.db.clone(), None, None, None);
-            akd::directory::Directory::<TC, _, _>::new(m, ctx.vrf.clone(), akd::append_only_zks::AzksParallelismConfig::disabled()).await.unwrap()
+            if shared_remote && rdir.is_some() {
+                rdir.clone().unwrap()
+            } else {
+                let m = akd::storage::manager::StorageManager::new(ctx.db.clone(), None, None, None);
+                let d = akd::directory::Directory::<TC, _, _>::new(m, ctx.vrf.clone(), akd::append_only_zks::AzksParallelismConfig::disabled()).await.unwrap();
+                rdir = Some(d.clone());
+                d
+            }
         } else {
             ctx.dir.clone()
         };
@@ -131,6 +144,20 @@ async fn run_conc_inner<TC: HasRef>(b: &Value, tr: &mut Tracer) -> Vec<Value> {
                     Ok(EpochHash(ep, d)) => json!({"res": "ok", "epoch": ep, "digest": hex::encode(d)}),
                     Err(e) => json!({"res": "err", "what": format!("{e}")}),
                 },
+                "poll" => {
+                    // the instance's change poller, until it has signalled once (its storage operations are gated like any other)
+                    let (tx, mut rx) = tokio::sync::mpsc::channel::<()>(4);
+                    let run = async {
+                        tokio::select! {
+                            r = dir.poll_for_azks_changes(std::time::Duration::from_millis(1), Some(tx)) => json!({"res": "err", "what": format!("{r:?}")}),
+                            _ = rx.recv() => json!({"res": "notified"}),
+                        }
+                    };
+                    match tokio::time::timeout(std::time::Duration::from_secs(10), run).await {
+                        Ok(v) => v,
+                        Err(_) => json!({"res": "timeout"}),
+                    }
+                }
                 "epoch_hash" => match dir.get_epoch_hash().await {
                     Ok(EpochHash(ep, d)) => json!({"res": "ok", "epoch": ep, "digest": hex::encode(d)}),
                     Err(_) => json!({"res": "err"}),
@@ -252,6 +279,12 @@ async fn run_conc_inner<TC: HasRef>(b: &Value, tr: &mut Tracer) -> Vec<Value> {
         }
     }
     tr.emit(json!({"ev": "reopen", "kind": "concurrent_run", "schedule": schedule, "granted": granted}));
+    if debug_log {
+        for o in ctx.db.take_log() {
+            eprintln!("op seq={} pid={} {} {} failed={}", o.seq, o.pid, o.kind, o.detail, o.failed);
+        }
+        ctx.db.set_log(false);
+    }
     if proto {
         let mut c = ctx.db.ctl.lock().unwrap();
         c.proto_enabled = false;
